@@ -7,6 +7,7 @@ import (
 	"math/rand"
 	"os"
 	"strings"
+	"sync/atomic"
 	"time"
 
 	"verif/internal/drive"
@@ -283,7 +284,66 @@ func oneSwitch(run *harness.Run, c *biCase, old, nm config.ReplayMode, rep int) 
 		Extra: map[string]any{"old_mode": string(old), "new_mode": string(nm)}}
 	sweepOp(run, cc, lg, m)
 	sampleOnce(run, cc, lg)
+	// thorough tier only: every step costs the standalone client's reconnect back-off (≈ 1.5 s)
+	if rep == 0 && opErr == nil && !run.Quick() {
+		lostReplySwitch(run, cc, c, lg, m)
+	}
 	return true
+}
+
+// lostReplySwitch: the process is not killed - one request of the format switch is EXECUTED by the
+// target and its connection dies before the reply (a reply lost on the way), the start-up fails or
+// goes on as the tool sees fit, and the tool starts the bookkeeping again (its own retry / the
+// restart of the syncer).  Whatever the failed attempt cleaned up or left behind: the next start
+// must find a position not smaller than the one held before.  Every request of the operation in turn.
+func lostReplySwitch(run *harness.Run, cc *caseCtx, c *biCase, lg *opLog, m marks) {
+	for k := int64(1); k <= lg.N; k++ {
+		t := newTarget(c.s0)
+		seq0 := t.Seq()
+		var fired atomic.Bool
+		failed := ""
+		t.SetHooks(nil, nil, func(q *fakeredis.Req) bool {
+			if q.Seq-seq0 == k && fired.CompareAndSwap(false, true) {
+				failed = q.Cmd
+				return true
+			}
+			return false
+		})
+		_, err1 := syncer.VerifNewOutput(syncerCfg(cc.SrcNew.Addr(), t.Addr()))
+		t.SetHooks(nil, nil, nil)
+		if !fired.Load() {
+			t.Close()
+			run.Count("lost_reply_step_not_reached", 1)
+			continue
+		}
+		_, err2 := syncer.VerifNewOutput(syncerCfg(cc.SrcNew.Addr(), t.Addr())) // the retry / the restarted syncer
+		after := t.Snapshot()
+		reqs := capture(cc.Kind, c.s0, t, seq0).Reqs
+		t.Close()
+		tn := newTarget(after)
+		g := nextStart(cc.SrcNew, tn.Addr(), cc.NewCfg)
+		tn.Close()
+		run.Eval(1)
+		run.Count("lost_reply_steps_run", 1)
+		clause, outcome := judge(cc.P0, g)
+		cls := m.class(k-1, lg.N)
+		run.Distinct(fmt.Sprintf("%s|lost-reply|%s|%s|%s|%s", cc.Kind, cc.Layout, cls, failed, outcome))
+		run.Seen("outcomes", cc.Kind+"/lost-reply|"+outcome)
+		if clause == "" {
+			continue
+		}
+		if clause == "next-start-refused" {
+			run.Count("next_start_refusals", 1)
+			continue
+		}
+		run.Violation(fmt.Sprintf("%s|%s|reply-lost-then-started-again|%s", cc.Kind, clause, cls), cc.Key,
+			fmt.Sprintf("%s: request %d of %d (%s, %s) was executed and its reply lost (connection closed), the start-up returned %v, the next attempt returned %v; "+
+				"the next start with the new configuration finds %s; before the operation a start found %s", cc.Kind, k, lg.N, failed, cls, err1, err2, g, cc.P0),
+			map[string]any{"layout_class": cc.Layout, "initial_state": cc.Desc, "initial_bookkeeping": bookDump(c.s0),
+				"old_config": cc.OldCfg, "new_config": cc.NewCfg, "before": cc.P0.String(), "after": g.String(), "failed_request": k,
+				"requests_of_the_uninterrupted_operation": reqDump(lg.Reqs), "requests_with_the_lost_reply_and_the_second_attempt": reqDump(reqs), "state_after": bookDump(after)})
+		return
+	}
 }
 
 func lastLine(s string) string {
